@@ -30,6 +30,13 @@ Example T19a_mev_example :
   = [(11, Some (2, 3)); (10, Some (2, 3)); (14, Some (1, 2))].
 Proof. vm_compute. reflexivity. Qed.
 
+(* the oracle model is complete: every duplicate-free ordered selection from the pool is the
+   outcome of some oracle *)
+Theorem T19a_draw_complete : forall l pool,
+  NoDup l -> incl l pool -> exists rs, draw (List.length l) pool rs = l.
+Proof. exact draw_complete. Qed.
+Print Assumptions T19a_draw_complete.
+
 (* T19b. The executable checker run by the stream on the implementation's output decides the
    protocol. *)
 Theorem T19b_check_sample_iff : forall strata c rows,
